@@ -325,3 +325,64 @@ Example line_format_queries_are_covered :
   LogqlTemplateProofs.planned_and_processed LogqlTemplateProofs.lf_query LogqlTemplateProofs.lf_ctx = true /\
   match plan_log LogqlTemplateProofs.lf_query true with Some p => draws_ids p = true /\ no_by_without p = true | None => False end.
 Proof. split; [exact LogqlTemplateProofs.line_format_query_planned | vm_compute; split; reflexivity]. Qed.
+
+(* ---- FixPeriodPlanner, the post-processor at the head of every matrix chain (round 8; model/ReplanFix.v) ----
+   Process refuses (NotSupportedError, inner processor not called, context untouched) or rewrites From / To of the context THE CALLER
+   HANDED IN to whole ranges and calls the inner processor with it; the planner object itself is never written (regenerated obligation
+   translation_field_writes: its stores go to the PlannerContext parameter). So what a re-execution can depend on is the context. *)
+From Qryn Require Import model.ReplanFix proofs.ReplanFixProofs.
+
+(* A prepared matrix chain executed again under a NEW context per execution (what prepareOutput does for every request): whatever
+   was executed before and after, the inner processor sees a function of the context of THAT execution. *)
+Theorem fix_period_reexecution_new_context :
+  forall d cs1 c cs2, nth (List.length cs1) (fix_run_fresh d (cs1 ++ c :: cs2)) None = fix_process d c.
+Proof. exact fix_fresh_nth. Qed.
+Print Assumptions fix_period_reexecution_new_context.
+
+(* ... and that function is the specified rounding (windows from 1970 on, positive range): whole ranges since the epoch that cover
+   the requested window, less than one range more below and at most one range more above. *)
+Theorem fix_period_window_covers_the_request :
+  forall d c, (0 < d)%Z -> (0 <= f_from c)%Z -> (f_from c <= f_to c)%Z ->
+  let w := fix_window d c in
+  (f_from w <= f_from c < f_from w + d)%Z /\ (f_to c < f_to w <= f_to c + d)%Z /\ Z.rem (f_from w) d = 0%Z /\ Z.rem (f_to w) d = 0%Z.
+Proof. exact fix_window_covers. Qed.
+Print Assumptions fix_period_window_covers_the_request.
+
+(* Under ONE context the object is NOT re-executable with the same meaning: whenever the (k+1)-th execution is not refused the inner
+   processor sees To moved up by k further ranges (From is rounded idempotently) - for every range, context and k ... *)
+Theorem fix_period_one_context_drifts :
+  forall d k c w, d <> 0%Z -> nth k (fix_run_one d (S k) c) None = Some w -> w = fix_nth_window d c k.
+Proof. exact fix_one_context_nth. Qed.
+Print Assumptions fix_period_one_context_drifts.
+
+(* ... the drift ends in the 11000-points refusal after finitely many executions, and a refusal is for ever. *)
+Theorem fix_period_one_context_eventually_refused :
+  forall d c, (0 < d)%Z -> (0 < f_step c)%Z -> (f_from c <= f_to c)%Z -> exists k, fix_refuses (fix_nth_window d c k) = true.
+Proof. exact fix_one_context_eventually_refused. Qed.
+Print Assumptions fix_period_one_context_eventually_refused.
+Theorem fix_period_refused_for_ever :
+  forall d k c j, fix_refuses c = true -> nth j (fix_run_one d k c) None = None.
+Proof. exact fix_refused_for_ever. Qed.
+Print Assumptions fix_period_refused_for_ever.
+
+(* "re-execution under one context = re-execution under new contexts" is therefore refuted (the witness the harness executes on the
+   real object: 5 m ranges, a one hour window); latent - no entry point executes a matrix chain twice under one context (Tail refuses
+   matrix queries, QueryRange / QueryInstant build a context per request). *)
+Theorem fix_period_one_context_refuted :
+  ~ (forall d c, (0 < d)%Z -> fix_run_one d 2 c = fix_run_fresh d [c; c]).
+Proof.
+  intro H. pose proof (H fix_witness_d fix_witness_ctx eq_refl) as E. rewrite fix_one_context_differs in E.
+  vm_compute in E. discriminate E.
+Qed.
+Print Assumptions fix_period_one_context_refuted.
+
+(* hypotheses are satisfiable: the witness context is accepted, three times in a row *)
+Example fix_period_witness_is_accepted :
+  fix_refuses fix_witness_ctx = false /\ (0 < fix_witness_d)%Z /\ (0 <= f_from fix_witness_ctx <= f_to fix_witness_ctx)%Z /\
+  nth 2 (fix_run_one fix_witness_d 3 fix_witness_ctx) None = Some (fix_nth_window fix_witness_d fix_witness_ctx 2).
+Proof. vm_compute. repeat split; congruence. Qed.
+(* before 1970 Go's truncating division rounds From UP (the window handed down starts after the requested one): the guard
+   0 <= From of fix_period_window_covers_the_request is needed *)
+Example fix_period_before_epoch_rounds_up :
+  exists d c, (0 < d)%Z /\ (f_from c <= f_to c)%Z /\ (f_from c < f_from (fix_window d c))%Z.
+Proof. exact fix_window_before_epoch. Qed.
